@@ -25,8 +25,8 @@ TRUSTED = [
 ASSUMPTIONS = [
     "the server's `protocol` argument is None, 'http' or 'https'; for a stream that is not AF_INET/AF_INET6 (unix socket) 'the socket "
     "address' is the documented stand-in '0.0.0.0'",
-    "request header blocks are syntactically valid (field names are tokens, values are field-values); invalid blocks end the "
-    "connection with 400 before the proxy adapter runs",
+    "5 % of the requests carry a header line that does not parse (no colon, non-token name, control character): the connection ends "
+    "with 400 before the proxy adapter runs, checked against the C06 model's verdict; otherwise header blocks are syntactically valid",
     "the raw resolver outcome is this platform's (Linux/glibc; interface `lo` exists, so zone ids are exercised); getaddrinfo raising a "
     "gaierror other than EAI_NONAME (re-raised by is_valid_ip) does not occur on header text and is not modelled",
     "str.strip() of an X-Forwarded-For entry is modelled with the CPython 3.12 whitespace set (compared with the interpreter by C43's `tables` case)",
@@ -36,7 +36,7 @@ RULE = ("1-5 keep-alive requests per connection, each with 0-4 proxy header line
         "zone ids: index, interface, alias-label trick, junk), 1-2 character mutations of all of these, garbage, "
         "lists with trusted entries and inner spaces, empty values, mixed-case/duplicate/folded header names; GET and POST, immediate "
         "and delayed responses, random segmentation; HTTP/1.1, HTTP/1.0 with and without keep-alive (requests after the one that ends "
-        "the connection must not be served), AF_INET / AF_INET6 / unix-socket contexts, application callbacks and handlers that raise; non-trivial = >=2 requests on the connection of which >=1 changes remote_ip or protocol")
+        "the connection must not be served), AF_INET / AF_INET6 / unix-socket contexts, application callbacks and handlers that raise, unparsable header blocks in mid-connection; non-trivial = >=2 requests on the connection of which >=1 changes remote_ip or protocol")
 EXHAUSTIVE = {"quick": False, "thorough": False}
 CLAUSE_CAVEATS = [
     "'numeric IP address' = Spec.numericIP (inet(3) numbers-and-dots forms, RFC 4291 IPv6 text, optional RFC 4007 zone id); the Lean "
@@ -45,7 +45,7 @@ CLAUSE_CAVEATS = [
     "assumption (it applies Spec.numericIP to the observed remote_ip), but it sees only this platform's resolver",
     "a delegate that raises in _ProxyAdapter.finish leaves the context rewritten (modelled as event finishRaises, generated with a "
     "raising callable); that no later request is served on that connection is the tie's observation (request count + leak oracle), "
-    "not a Lean theorem — the closing is _server_request_loop's (C05). Unparsable header blocks in mid-connection are not generated",
+    "not a Lean theorem — the closing is _server_request_loop's (C05); likewise for a header block that does not parse (400, close)",
 ]
 CLAUSES = {
     "remote_ip is a numeric IP taken from the proxy headers only when they supply one, X-Real-Ip before the rightmost untrusted "
@@ -103,6 +103,8 @@ NAMES_SCHEME = ["X-Scheme", "x-scheme"]
 NAMES_PROTO = ["X-Forwarded-Proto", "x-forwarded-proto", "X-FORWARDED-PROTO"]
 PROTOS = ["http", "https", "HTTPS", "ftp", "https, http", "http,https", "https ,", ",https", "https\t", "wss", "http:", "h", "https,  http ",
           "http\xa0", "\xa0https"]
+BAD_LINES = ["X-Real-Ip 4.4.4.4", "X Real-Ip: 4.4.4.4", ": 4.4.4.4", "X-Real-Ip: 4.4.4.4\x01", "X-Forwarded-For: 1.2.3.4\x7f", "X-Real-Ip\t: 4.4.4.4",
+             "X-Forwarded-For", "X-R\xe9al-Ip: 4.4.4.4", "(X-Scheme): https", "X-Forwarded-Proto: https\x00"]
 FIELD_VALUE = re.compile(r"(?:[\x21-\x7e\x80-\xff](?:[\x21-\x7e\x80-\xff \t]*[\x21-\x7e\x80-\xff])?)?\Z")
 
 
@@ -153,9 +155,12 @@ def _req(rng, trusted):
     lines = [l for l in lines if l[0] in " \t" or FIELD_VALUE.match(l.split(":", 1)[1].strip(" \t"))]
     if lines and lines[0][0] in " \t":
         lines = lines[1:]
+    bad = rng.random() < 0.05
+    if bad:             # a header block that does not parse: 400 and the connection ends before the proxy adapter sees the request
+        lines.insert(rng.randint(0, len(lines)), rng.choice(BAD_LINES))
     post = rng.random() < 0.25
     return {"lines": lines, "body": rng.choice([0, 1, 5, 70]) if post else None, "delay": rng.random() < 0.3,
-            "version": rng.choice(["1.1"] * 8 + ["1.0ka", "1.0ka", "1.0"]), "raises": rng.random() < 0.06}
+            "version": rng.choice(["1.1"] * 8 + ["1.0ka", "1.0ka", "1.0"]), "raises": rng.random() < 0.06, "bad": bad}
 
 
 def gen_cases(rng, tier):
@@ -262,7 +267,7 @@ def _serve(case, reqs, end):
             lp.drain()
         lp.advance(3.0)
         final = [ctx.remote_ip, ctx.protocol]
-        responses = bytes(s.written).count(b"HTTP/1.1 ")
+        responses = bytes(s.written).count(b"HTTP/1.1 ") if b"400 Bad Request" not in bytes(s.written) else -1
     return obs, mid, final, responses
 
 
@@ -276,7 +281,10 @@ def run_impl(case):
         solo.append(o[0][:2] if o else None)
     cands = set([_sock(case)])
     for r in case["reqs"]:
-        h = HTTPHeaders.parse("".join(l + "\r\n" for l in r["lines"]))
+        try:
+            h = HTTPHeaders.parse("".join(l + "\r\n" for l in r["lines"]))
+        except Exception:
+            continue
         for name in ("X-Forwarded-For", "X-Real-Ip"):
             v = h.get(name)
             if v is not None:
@@ -324,18 +332,24 @@ def _reached(case):
     n = len(case["reqs"])
     for k, r in enumerate(case["reqs"]):
         ver = r.get("version", "1.1")
-        if ver == "1.0" or _raising(case, r) or (k == n - 1 and case["end"] == "close-header" and ver != "1.0ka"):
+        if r.get("bad") or ver == "1.0" or _raising(case, r) or (k == n - 1 and case["end"] == "close-header" and ver != "1.0ka"):
             return k + 1
     return n
 
 
+def _ends_bad(case):
+    m = _reached(case)
+    return m > 0 and bool(case["reqs"][m - 1].get("bad"))
+
+
 def _aborted(case):
-    return bool(case["end"] == "abort-in-body" and case["reqs"] and case["reqs"][-1]["body"] and _reached(case) == len(case["reqs"]))
+    return bool(case["end"] == "abort-in-body" and case["reqs"] and case["reqs"][-1]["body"] and _reached(case) == len(case["reqs"])
+                and not _ends_bad(case))
 
 
 def _expected_count(case):
-    """requests that reach the handler: the reached ones, except a last one whose body is cut short"""
-    return _reached(case) - (1 if _aborted(case) else 0)
+    """requests that reach the handler: the reached ones, except a last one whose body is cut short or whose header block is refused"""
+    return _reached(case) - (1 if _aborted(case) or _ends_bad(case) else 0)
 
 
 def _ends_raising(case):
@@ -348,7 +362,9 @@ def model_requests(case, impl):
     m = _reached(case)
     for k, r in enumerate(case["reqs"][:m]):
         evs.append([atom("H"), r["lines"]])
-        if k == m - 1 and _aborted(case):
+        if r.get("bad"):
+            pass                             # HTTPInputError before headers_received: the adapter sees nothing, 400, connection closed
+        elif k == m - 1 and _aborted(case):
             evs.append([atom("C")])          # the peer goes away inside the body: on_connection_close
         elif _raising(case, r):
             evs.append([atom("X")])          # delegate.finish() raises: no restore; the connection is closed
@@ -384,11 +400,13 @@ def model_result(case, replies):
     # `mid` is read when every byte has been delivered: before the final close event of an aborted request
     mid = steps[-2][1:] if _aborted(case) else (steps[-1][1:] if steps else orig)
     final = steps[-1][1:] if steps else orig
-    return {"obs": obs, "mid": mid, "final": final, "valid": _py(replies[1])[0]}
+    return {"obs": obs, "mid": mid, "final": final, "valid": _py(replies[1])[0],
+            "refused": bool(steps) and steps[-1][0] == "BadHeaders"}
 
 
 def impl_view(case, impl):
-    return {"obs": impl["obs"], "final": impl["final"], "mid": impl["mid"], "valid": impl["valid"]}
+    return {"obs": impl["obs"], "final": impl["final"], "mid": impl["mid"], "valid": impl["valid"],
+            "refused": impl["responses"] == -1}        # the server answered 400 Bad Request
 
 
 def _seen_ips(impl):
@@ -438,6 +456,8 @@ def stats(case, impl):
     out.append("served:%d/%d" % (len(impl["obs"]), len(case["reqs"])))
     for r in case["reqs"][:_reached(case)]:
         out.append("version:" + r.get("version", "1.1"))
+    if _ends_bad(case):
+        out.append("connection ended by an unparsable header block")
     if _ends_raising(case):
         out.append("connection ended by a callback raising in finish (context left rewritten)")
     for o in impl["obs"]:
